@@ -15,7 +15,6 @@ pub enum MetaBox {
         ilst: Option<IlstBox>,
     },
 
-    #[serde(skip)]
     Unknown {
         #[serde(skip)]
         hdlr: HdlrBox,
